@@ -26,7 +26,7 @@ func init() { register("C07", checkC07) }
 
 const lifeModelVariant = "fix"
 
-var lifeDefaults = map[string]any{"e": "", "p": "", "op": "", "r": "", "alive": 0, "gor": 0, "pend": 0, "slow": 0}
+var lifeDefaults = map[string]any{"e": "", "p": "", "op": "", "r": "", "alive": 0, "gor": 0, "pend": 0, "slow": 0, "fail": 0}
 
 type lifeStep struct {
 	P  string `json:"p"`
@@ -40,6 +40,9 @@ type lifeBehaviour struct {
 type lifeScenario struct {
 	Script   map[string][]string `json:"script"`
 	Remoting bool                `json:"remoting"`
+	// BadRemoting: the system is configured with a remoting address without a port: Start fails in its first step (and
+	// cleans up after itself); what is checked is that nothing hangs and no goroutine of the system is left
+	BadRemoting bool `json:"bad_remoting,omitempty"`
 	// SlowMS > 0: one actor of the tree sleeps that long in its OnKill handler (slow to terminate);
 	// StopTimeoutMS is then the time-out passed to Stop (0 and negative values mean "time out at once")
 	SlowMS        int `json:"slow_ms,omitempty"`
@@ -120,6 +123,9 @@ func runLifeScenario(sc *lifeScenario, schedule []lifeStep, seed int64) *lifeRun
 		lifePortMu.Unlock()
 		opts = append(opts, vivid.WithActorSystemRemoting(addr))
 	}
+	if sc.BadRemoting {
+		opts = append(opts, vivid.WithActorSystemRemoting("127.0.0.1"))
+	}
 	sys := actor.NewSystem(opts...)
 	c := ctl.New()
 	c.Filter = func(point string, obj any) bool {
@@ -147,6 +153,7 @@ func runLifeScenario(sc *lifeScenario, schedule []lifeStep, seed int64) *lifeRun
 	}
 	started := false
 	cancelled := false
+	startFailed := false
 	var stopping atomic.Bool
 	names := make([]string, 0, len(sc.Script))
 	for n := range sc.Script {
@@ -162,7 +169,14 @@ func runLifeScenario(sc *lifeScenario, schedule []lifeStep, seed int64) *lifeRun
 				case "start":
 					ev(map[string]any{"e": "Call", "p": name, "op": "start"})
 					err := sys.Start()
-					ev(map[string]any{"e": "Ret", "p": name, "op": "start", "r": classifyLifeErr(err)})
+					res := classifyLifeErr(err)
+					if res == "other" && sc.BadRemoting {
+						res = "start-failed"
+						mu.Lock()
+						startFailed = true
+						mu.Unlock()
+					}
+					ev(map[string]any{"e": "Ret", "p": name, "op": "start", "r": res, "fail": b2i(sc.BadRemoting)})
 					if err == nil {
 						mu.Lock()
 						started = true
@@ -257,7 +271,7 @@ func runLifeScenario(sc *lifeScenario, schedule []lifeStep, seed int64) *lifeRun
 			}
 		}
 		alive, gor := 0, 0
-		if started && (stopped || cancelled) && !run.Hang {
+		if ((started && (stopped || cancelled)) || startFailed) && !run.Hang {
 			deadline := time.Now().Add(1500 * time.Millisecond)
 			for {
 				alive = len(sys.VerifLiveActors())
@@ -497,6 +511,14 @@ func checkC07(c *core.Ctx) {
 			sc.SlowMS = 700
 			sc.StopTimeoutMS = []int{0, -1000, 1, 30}[rng.Intn(4)]
 			sc.Remoting = false
+		}
+		if rng.Intn(10) == 0 {
+			// Start fails in its first step
+			sc = &lifeScenario{Script: map[string][]string{"a": [][]string{{"start"}, {"start", "stop"}, {"start", "start"}}[rng.Intn(3)]}, BadRemoting: true}
+			run := runLifeScenario(sc, nil, c.Seed*991+int64(i))
+			c.Add("evaluations", 1)
+			traces = append(traces, &Trace{Events: run.Events, Class: "start-fails", Name: fmt.Sprintf("random#%d", i), Scenario: map[string]any{"scenario": sc, "seed": c.Seed*991 + int64(i), "leak": run.Leak}})
+			continue
 		}
 		for k := 0; k < 1+rng.Intn(3); k++ {
 			var s []string
